@@ -359,10 +359,35 @@ func RunC10(r *sim.Run) {
 			conflict = true
 		}
 	}
+	// Known finding F-C10-1 (circular conflict): a cluster that still holds a name
+	// its latest object gave up has not been brought to its latest object at all,
+	// and neither has a cluster waiting for such a name; their serving material is
+	// as stale as their names, which is that finding, not another one.
+	stuck := map[string]bool{}
+	staleHolder := false
+	for h2, d := range final.Resolve {
+		if d != "" && lc[d] != nil && !lc[d][h2] {
+			staleHolder = true
+			stuck[d] = true
+		}
+	}
+	if staleHolder {
+		for n, m := range lc {
+			for h := range m {
+				if final.Resolve[h] != n {
+					stuck[n] = true
+				}
+			}
+		}
+	}
 	if !conflict {
 		getCfg := w.Ctl.WrapGetConfigForClient(func(*tls.ClientHelloInfo) (*tls.Config, error) { return &tls.Config{}, nil })
 		for _, h := range w.Hosts {
 			c := final.Resolve[h]
+			if stuck[c] {
+				r.Probe("tls_check_skipped_cluster_stuck_behind_stale_claim")
+				continue
+			}
 			cfg, err := getCfg(&tls.ClientHelloInfo{ServerName: h})
 			if err != nil {
 				r.Violate("tls_config_error", "c10", "GetConfigForClient(%q): %v", h, err)
